@@ -175,9 +175,9 @@ def isDispatchErr : Err → Bool
 
 /-- a call whose payload touches no context: its call context is allocated iff an overload accepted
     the arguments; the payload's own exception is raised inside it -/
-def callPure (C : Nat) (x : R Obj) : M ObjS :=
+def callPure (C : Nat) (x : R α) : M α :=
   match x with
-  | .ok o => do let _ ← childCtx C; pure (.data o)
+  | .ok o => do let _ ← childCtx C; pure o
   | .error e => if isDispatchErr e then fail e else do let _ ← childCtx C; fail e
 
 /-- `#get_context_data`: `context[name]` read through the call context -/
@@ -317,6 +317,11 @@ def lamManyS (ev : EvS) (D : Nat) (body : Expr) (x : Value) : M (VL × Option Er
     | some s => pure s
     | none => do let v ← liftR (toV o); pure ([v], none)
 
+/-- one step of `sum`: `operator(a, b)` through the `#operator_+` delegate of `sum`'s call context `F` -/
+def plusS (F : Nat) (a b : Value) : M Value := do
+  let Dl ← childCtx F
+  callPure Dl (binopV .add a b)
+
 /-- methods.  `Ca` is the context the arguments are evaluated in (the method lambda's context for
     `e.f(..)`, the caller's for `f(e, ..)`); the payload's call context `F` is a child of `Ca`,
     allocated once an overload accepted the evaluated arguments; lambdas capture `F`. -/
@@ -438,16 +443,16 @@ def callMethodS (ev : EvS) (Ca : Nat) (bad : Err) (r : ObjS) (f : Fn) (args : Li
     | some ([], none) => do let _ ← childCtx Ca; fail .type
     | some ([], some e) => do let _ ← childCtx Ca; fail e
     | some (x :: xs, e) => do
-      let _ ← childCtx Ca
-      let v ← liftR (foldL (binopV .add) x xs e); pure (.data (.val v))
+      let F ← childCtx Ca
+      let v ← foldLS (plusS F) x xs e; pure (.data (.val v))
   | .sum, [init] =>
     match toIterS r with
     | none => fail bad
     | some (xs, e) => do
       let io ← ev Ca init
       let i ← liftR (toVS io)
-      let _ ← childCtx Ca
-      let v ← liftR (foldL (binopV .add) i xs e)
+      let F ← childCtx Ca
+      let v ← foldLS (plusS F) i xs e
       pure (.data (.val v))
   | .first, [] =>
     match toIterS r with
@@ -577,7 +582,9 @@ def callFnS (ev : EvS) (C : Nat) (f : Fn) (args : List Expr) (kw : List (Expr ×
     if !kw.isEmpty then fail .outOfDomain
     else do
       let os ← evalObjsS ev C args
-      let _ ← childCtx C
+      let L ← childCtx C
+      let Dl ← childCtx L               -- `delegate(rec(args))`: the `to_list` delegate's child ...
+      let _ ← childCtx Dl               -- ... and `to_list`'s call context
       let parts ← liftR (os.mapM fun o => listArg o.erase)
       pure (.data (.val (.tuple parts.flatten)))
   | .dict =>
@@ -652,9 +659,9 @@ def stepS (ev : EvS) (C : Nat) : Expr → M ObjS
     if (args.length = 1 || args.length = 2) && !isConst e then do
       let r ← ev C e
       let vs ← evalListS ev C args
-      callPure C (indexer r.erase vs)
+      callPure C (dataR (indexer r.erase vs))
     else fail .noFunction
-  | .un op e => do let r ← ev C e; callPure C (unop op r.erase)
+  | .un op e => do let r ← ev C e; callPure C (dataR (unop op r.erase))
   | .bin .and a b => do
     let A ← childCtx C                  -- both operands are lazy: each in its own child of `A`
     let A1 ← childCtx A
@@ -667,7 +674,7 @@ def stepS (ev : EvS) (C : Nat) : Expr → M ObjS
     if truthyS x then pure x else do let A2 ← childCtx A; ev A2 b
   | .bin op a b =>
     if litOk op a && litOk op b then do
-      let x ← ev C a; let y ← ev C b; callPure C (binop op x.erase y.erase)
+      let x ← ev C a; let y ← ev C b; callPure C (dataR (binop op x.erase y.erase))
     else fail .noFunction
   | .arrow l r => do
     let c ← ev C l
@@ -737,19 +744,29 @@ def finaliseS (F : Nat) (o : ObjS) : M Final :=
     match toIter o with
     | some s => do
       iterCalls F 1
-      let xs ← liftR (drain s)
-      iterCalls F (containersL xs)
+      iterCalls F (containersL s.1)     -- `list(rec(t) for t in limiter(obj))`: element by element, then the tail
+      let _ ← liftR (drain s)
       liftR (finalise o)
     | none =>
       match o with
       | .val v => do iterCalls F (containers v); liftR (finalise o)
       | _ => fail .outOfDomain
 
-/-- `statement.evaluate(data=doc, context=C)` -/
-def evaluateS (fuel : Nat) (C : Nat) (doc : Value) (e : Expr) : M Final := do
-  setVar C ['$'] doc                  -- `context['$'] = data`
-  let o ← evalS fuel C e              -- `#finalize(expression)`: the argument, in the given context
-  let F ← childCtx C                  -- ... then the finaliser's call context
+/-- `Statement.__call__` on a context that has `#finalize`: `#finalize(expression)` - the argument is evaluated
+    in the given context, then the finaliser runs in its own call context -/
+def callS (fuel : Nat) (C : Nat) (e : Expr) : M Final := do
+  let o ← evalS fuel C e
+  let F ← childCtx C
   finaliseS F o
+
+/-- `statement.evaluate(data=doc, context=C)`: `context['$'] = data`, then the call -/
+def evaluateS (fuel : Nat) (C : Nat) (doc : Value) (e : Expr) : M Final := do
+  setVar C ['$'] doc
+  callS fuel C e
+
+/-- what a host does per evaluation: its own child of the prepared context, the statement evaluated there -/
+def hostEvalS (fuel : Nat) (shared : Nat) (doc : Value) (e : Expr) : M Final := do
+  let c ← childCtx shared
+  evaluateS fuel c doc e
 
 end Yaql.EvalStore
